@@ -449,3 +449,31 @@ Lemma diff_core_roots_default o old new fuel :
   diff_core_roots o old new [[]] fuel = diff_core o old new fuel /\
   diff_roots o old new [] fuel = diff o old new fuel.
 Proof. repeat split. Qed.
+
+(* ---- histories: only the final map matters ------------------------------------------------------------------ *)
+Lemma lookup_drop_key k k' i : lookup (drop_key k i) k' = if key_eqb k' k then None else lookup i k'.
+Proof.
+  unfold drop_key. induction i as [|[k0 e0] r IH]; simpl; [now destruct (key_eqb k' k)|].
+  destruct (key_eqb k0 k) eqn:E0; simpl.
+  - apply key_eqb_spec in E0. subst k0. rewrite IH. destruct (key_eqb k' k); reflexivity.
+  - rewrite IH. destruct (key_eqb k' k0) eqn:E1; [|reflexivity].
+    apply key_eqb_spec in E1. subst k'. now rewrite E0.
+Qed.
+
+(* the final map is the dictionary the history describes *)
+Lemma lookup_apply_hop i op k' :
+  lookup (apply_hop i op) k' =
+  match op with
+  | HSet k e => if key_eqb k' k then Some e else lookup i k'
+  | HDel k => if key_eqb k' k then None else lookup i k'
+  end.
+Proof.
+  destruct op as [k e|k]; simpl; [|apply lookup_drop_key].
+  destruct (key_eqb k' k) eqn:E; [reflexivity|]. rewrite lookup_drop_key. now rewrite E.
+Qed.
+
+(* two histories with the same final map are indistinguishable to diff (and to everything else in the model) *)
+Lemma diff_final_map_only o h1 h2 h1' h2' fuel :
+  final_map h1 = final_map h1' -> final_map h2 = final_map h2' ->
+  diff o (Some (final_map h1)) (Some (final_map h2)) fuel = diff o (Some (final_map h1')) (Some (final_map h2')) fuel.
+Proof. intros -> ->. reflexivity. Qed.
